@@ -485,7 +485,11 @@ def _check_divide(ctx, repo, cls: ClassInfo, init: FuncInfo, alias: dict[str, st
     if "values" in sl:
         lo, hi = sl["values"][0], sl["values"][1]
         lo_n, hi_n = lo[2:] if lo.startswith("1*") else lo, hi[2:] if hi.startswith("1*") else hi
-        ctx.require(lo_n in kinds and hi_n in kinds and not sl["values"][2],
+        ctx.check(not sl["values"][2], "R-SAMESLICE", f"{div.qualname}:contiguous", div.loc(call),
+                  "blocks are contiguous slices (no step)",
+                  f"blocks are strided slices (step {sl['values'][2]}): consecutive blocks do not cover the values",
+                  key_detail="step")
+        ctx.require(lo_n in kinds and hi_n in kinds,
                     f"{div.qualname}: slice bounds `{lo}`:`{hi}` are not the loop's bound variables")
         (klo, clo), (khi, chi) = kinds[lo_n], kinds[hi_n]
         good = klo == "excl" and khi == "incl" and clo == chi
